@@ -187,7 +187,7 @@ func ruleSibling(p *Program, r *Result) {
 	}
 	// s4: in each body decoder the mismatch error is produced only by the sum-of-lengths test, before Validate
 	for _, t := range []string{"AuthenStart", "AuthenReply", "AuthenContinue", "AuthorRequest", "AuthorReply", "AcctRequest", "AcctReply"} {
-		U := p.LookupFunc("", t+".UnmarshalBinary")
+		U := p.view(p.LookupFunc("", t+".UnmarshalBinary"))
 		V := p.LookupFunc("", t+".Validate")
 		if U == nil {
 			r.undecided("R-SIBLING", t+":mismatch-producer", "-", "UNRESOLVED %s.UnmarshalBinary", t)
